@@ -155,11 +155,17 @@ class Trajectories:
                     viol.setdefault("frame", {"obligation": f"{self.name}::configured-rates-untouched-by-a-run", "bounded": self.name, "witness": {"rates_after_the_run": [cr.alpha, cr.beta, cr.gamma]}})
             except Exception as e:
                 viol.setdefault("nan", {"obligation": f"{self.name}::regressed-rates-are-finite", "bounded": self.name, "witness": {"exception": f"{type(e).__name__}: {e}"}})
+        hist["initial-level-above-the-maximum"] = dict(initial_level=3, maximum_level=2, initial_mc_paths=3, plans=(([3], True), ([3], True)))
         for hname, kw in hist.items():
             ev += 1
             with warnings.catch_warnings():
                 warnings.simplefilter("ignore")
-                eng, stats, counter, script = H.run(**dict(kw))
+                try:
+                    eng, stats, counter, script = H.run(**dict(kw))
+                except ValueError as e:
+                    if hname == "initial-level-above-the-maximum":
+                        continue          # refusing an inconsistent configuration is a correct way never to exceed the maximum
+                    raise
             levels = len(stats.mc_statistics)
             max_level = kw["maximum_level"]
             crit = [e for e in script.log if e[0] == "criteria"]
